@@ -95,6 +95,7 @@ type wstate struct {
 	vals   map[ssa.Value]*absVal
 	mem    map[string]*absVal
 	allocd map[string]bool
+	esc    map[string]bool // cells whose address was handed to an unmodelled call: contents unknown
 	visits map[*ssa.BasicBlock]int
 	trail  []*ssa.BasicBlock
 	defers []*ssa.Defer
@@ -110,6 +111,12 @@ func (s *wstate) clone() *wstate {
 	}
 	for k, v := range s.allocd {
 		n.allocd[k] = v
+	}
+	if len(s.esc) > 0 {
+		n.esc = map[string]bool{}
+		for k, v := range s.esc {
+			n.esc[k] = v
+		}
 	}
 	for k, v := range s.visits {
 		n.visits[k] = v
@@ -216,10 +223,35 @@ func (w *walker) load(st *wstate, key string, t types.Type) *absVal {
 	if i := strings.Index(key, "."); i >= 0 {
 		base = key[:i]
 	}
-	if strings.HasPrefix(base, "A:") && st.allocd[base] {
+	if strings.HasPrefix(base, "A:") && st.allocd[base] && !st.escaped(key) {
 		return zeroOf(t)
 	}
 	return avTag("load " + key)
+}
+
+// escaped: the cell (or an enclosing / enclosed one) was passed by address to
+// a call the walker does not model, so its contents are whatever the callee
+// left there.
+func (s *wstate) escaped(key string) bool {
+	for e := range s.esc {
+		if key == e || strings.HasPrefix(key, e+".") || strings.HasPrefix(e, key+".") {
+			return true
+		}
+	}
+	return false
+}
+
+// havoc forgets what is known about the cell at key and everything inside it.
+func (s *wstate) havoc(key string) {
+	if s.esc == nil {
+		s.esc = map[string]bool{}
+	}
+	s.esc[key] = true
+	for k := range s.mem {
+		if k == key || strings.HasPrefix(k, key+".") {
+			delete(s.mem, k)
+		}
+	}
 }
 
 func (w *walker) store(st *wstate, key string, v *absVal) {
@@ -262,6 +294,11 @@ func (w *walker) transfer(st *wstate, in ssa.Instruction, prev *ssa.BasicBlock) 
 		for k := range st.mem {
 			if k == key || strings.HasPrefix(k, key+".") {
 				delete(st.mem, k)
+			}
+		}
+		for k := range st.esc {
+			if k == key || strings.HasPrefix(k, key+".") {
+				delete(st.esc, k)
 			}
 		}
 		st.vals[x] = &absVal{k: avPtr, key: key}
@@ -332,6 +369,19 @@ func (w *walker) transfer(st *wstate, in ssa.Instruction, prev *ssa.BasicBlock) 
 		st.vals[x] = avSymOf(x)
 	case *ssa.Defer:
 		st.defers = append(st.defers, x)
+	case *ssa.Call:
+		// an unmodelled call may write through every pointer it is given
+		for _, a := range x.Call.Args {
+			if pv := w.eval(st, a); pv.k == avPtr && strings.HasPrefix(pv.key, "A:") {
+				st.havoc(pv.key)
+			}
+		}
+		if x.Call.IsInvoke() {
+			if pv := w.eval(st, x.Call.Value); pv.k == avPtr && strings.HasPrefix(pv.key, "A:") {
+				st.havoc(pv.key)
+			}
+		}
+		st.vals[x] = avSymOf(x)
 	default:
 		if isVal {
 			st.vals[v] = avSymOf(v)
